@@ -133,37 +133,14 @@ Notation prun := (prun T mul div norm_of is_zero one).
 Notation pobserve := (pobserve T mul div norm_of is_zero one).
 Notation pinit := (pinit T one).
 
-(* what is observable of a state: the normalisation value and the three arrays a read
-   would return (cached or not) *)
-Record pview := { v_nv : T; v_p : list T; v_e : list T; v_d : option (list T) }.
-Definition view (c : pcfg T) (s : pst T) : pview :=
-  {| v_nv := nv T s;
-     v_p := match cp T s with Some v => v | None => p_PR T c end;
-     v_e := match ce T s with Some v => v | None => p_ER T c end;
-     v_d := match cd T s with Some d => Some d | None => p_DR T c end |}.
-
-(* the cache-free reference object: no lazy attributes, all three arrays always rescaled *)
-Definition vscale (c : pcfg T) (v : pview) (f : T -> T) : pview :=
-  {| v_nv := v_nv v; v_p := map f (v_p v); v_e := map f (v_e v);
-     v_d := match p_DR T c with None => v_d v | Some _ => option_map (map f) (v_d v) end |}.
-Definition vstep (c : pcfg T) (v : pview) (o : pop) : pview * pobs T :=
-  match o with
-  | PRead AProf => (v, OArr T (v_p v))
-  | PRead AErr => (v, OArr T (v_e v))
-  | PRead AData => (v, match v_d v with Some d => OArr T d | None => ORaise T 3 end)
-  | PReadNV => (v, OScalar T (v_nv v))
-  | PNorm sum =>
-      let n := norm_of sum (v_p v) in
-      if is_zero n then (v, ONone T)
-      else (vscale c {| v_nv := mul (v_nv v) n; v_p := v_p v; v_e := v_e v; v_d := v_d v |}
-                   (fun x => div x n), ONone T)
-  | PUnnorm =>
-      let k := v_nv v in
-      let v1 := vscale c v (fun x => mul x k) in
-      ({| v_nv := one; v_p := v_p v1; v_e := v_e v1; v_d := v_d v1 |}, ONone T)
-  end.
-Definition vrun (c : pcfg T) (h : list pop) (v : pview) : pview :=
-  fold_left (fun v o => fst (vstep c v o)) h v.
+Notation view := (view T).
+Notation vscale := (vscale T).
+Notation vstep := (vstep T mul div norm_of is_zero one).
+Notation vrun := (vrun T mul div norm_of is_zero one).
+Notation v_nv := (v_nv T).
+Notation v_p := (v_p T).
+Notation v_e := (v_e T).
+Notation v_d := (v_d T).
 
 Lemma pstep_sim c s o :
   view c (fst (pstep false c s o)) = fst (vstep c (view c s) o) /\
@@ -276,6 +253,10 @@ Notation rd_bbox := (rd_bbox V F_shape F_isscalar F_pos2d F_ext F_bbox F_pick no
 Notation rd_edges := (rd_edges V F_pos2d F_ext F_bbox F_edges noval).
 Notation rd_area := (rd_area V F_area).
 Notation rd_mask := (rd_mask V F_shape F_isscalar F_pos2d F_ext F_bbox F_pick F_edges F_mask noval).
+Notation wf_op := (wf_op V).
+Notation aconstructed := (aconstructed V).
+Notation ctor_ops := (ctor_ops V).
+Notation afinal := (afinal V F_shape F_isscalar F_pos2d F_ext F_area F_bbox F_pick F_edges F_mask noval).
 
 (* every cached lazyproperty equals what a fresh aperture with the current parameters computes *)
 Definition ainv (s : ast V) : Prop :=
@@ -394,8 +375,6 @@ Qed.
 
 (* the parameters of a constructed aperture are all present; assignments only name them *)
 Definition all_set (p : params V) : Prop := forall i, (i < length p)%nat -> nth i p None <> None.
-Definition wf_op (n : nat) (o : aop V) : Prop :=
-  match o with ASet _ i _ _ => (i < n)%nat | ARead _ _ => True end.
 
 Lemma upd_length p : forall i v, (i < length p)%nat -> length (upd V p i v) = length p.
 Proof.
@@ -456,9 +435,6 @@ Proof.
   rewrite (map_nth Some l noval i). discriminate.
 Qed.
 
-(* a constructed aperture (all parameters assigned, nothing read yet) *)
-Definition aconstructed (vs : list V) : ast V := {| a_params := map Some vs; a_cache := empty_cache V |}.
-
 Lemma aperture_reads_fresh_lemma cl vs h :
   Forall (wf_op (length vs)) h ->
   map fst (arun cl (aconstructed vs) h) = aspec (map Some vs) h.
@@ -468,12 +444,6 @@ Proof.
   - apply all_set_map_some.
   - rewrite map_length. exact W.
 Qed.
-
-(* the constructor itself: first assignments never reset anything and lead to [aconstructed] *)
-Fixpoint ctor_ops (i : nat) (vs : list V) : list (aop V) :=
-  match vs with [] => [] | v :: r => ASet V i v true :: ctor_ops (S i) r end.
-Definition afinal (cl : acls) (s : ast V) (h : list (aop V)) : ast V :=
-  fold_left (fun s o => fst (astep cl s o)) h s.
 
 Lemma upd_snoc (l : list V) v : upd V (map Some l) (length l) v = map Some (l ++ [v]).
 Proof. induction l as [|x l IH]; cbn; [reflexivity|]. rewrite IH. reflexivity. Qed.
